@@ -138,7 +138,7 @@ func (encryptor *MySQLTokenizeQuery) OnBind(ctx context.Context, statement sqlpa
 					Warning("Invalid placeholder index")
 				return values, false, encryptor_base.ErrInvalidPlaceholder
 			}
-			indexes = append(indexes, index)
+			indexes = appendIndexOnce(indexes, index)
 		}
 	}
 
@@ -213,4 +213,16 @@ func (encryptor *MySQLTokenizeQuery) getTokenizerDataWithSetting(setting config.
 		tokenized, err = encryptor.tokenEncryptor.EncryptWithClientID(clientID, dataToTokenize, setting)
 		return
 	}
+}
+
+// appendIndexOnce adds a placeholder index unless it is there already: a placeholder can be found more than once (the same
+// placeholder in two comparisons, a comparison of a nested sub-select collected with the outer WHERE and with its own),
+// but its bound value has to be replaced exactly once
+func appendIndexOnce(indexes []int, index int) []int {
+	for _, known := range indexes {
+		if known == index {
+			return indexes
+		}
+	}
+	return append(indexes, index)
 }
